@@ -567,6 +567,11 @@ package zygo
 // an exponent (the rune right after a tilde is the one exception: it starts the unquoted atom)
 //@ func (*Lexer).LexNextRune
 //@ C06 assert an-operator-rune-ends-the-atom @before call WriteRune[*]: lexer.state == LexerNormal && !tildeJustRead ==> !(arg1 == 42 || arg1 == 60 || arg1 == 62 || arg1 == 61 || arg1 == 33 || arg1 == 38 || arg1 == 124)
+// every entry of the process-wide type registry has a factory that makes a value: the scans of the
+// registry (record conversion, Go method calls) reflect on what each factory makes, so one entry
+// that makes nothing makes those calls fail in every interpreter of the process from then on
+//@ func (*GoStructRegistryType).GetOrCreateSliceType$1
+//@ C01,C20 ensures the-slice-type-factory-makes-a-value: r1 == nil ==> r0 != nil
 // mdef: every target slot is filled with a symbol before the value is compiled; the bind
 // instruction hands each one to BindSymbol, which dereferences it
 //@ func (*Generator).GenerateMultiDef
